@@ -32,7 +32,7 @@ ASSUMPTIONS = [
     "non-integer positions (floats, strings, None) are outside the quantifier (arbitrary integer positions) and not driven",
 ]
 REQUIRED = {"all": ["set_calls", "clear_calls", "positions_zero_or_negative", "positions_beyond_end", "positions_non_sty",
-                    "positions_duplicate", "distribution_checked", "kappa_after_checked", "kappa_after_with_cached_dmax",
+                    "positions_duplicate", "distribution_checked", "distributions_over_9_or_more_sites", "kappa_after_checked", "kappa_after_with_cached_dmax",
                     "clear_then_phosphosequence", "out_of_order_sites", "long_ignored_position_histories"]}
 NWORDS = {"quick": 400, "thorough": 5000}
 
@@ -42,6 +42,13 @@ def cases(tier, seed):
     fixed = ["MDVFMKGLSKAKEGVVAAAEKTKQGVAEAAGKTKEGVLYVGSKTKEGVVHGVATVAEKTKEQVTNVGGAVVTGVTAVAQKTVEGAGSIAAATGFVKKDQLGKNEEGAPQEGILEDMPVDPDNEAYEMPSEEGYQDYEPEA",
              "SGGTY", "KKKYKKK", "S", "STYSTYSTY", "GGGGKKEE", "EKEKEKGGS", "YGGKKEEGGT", "GGSSSSSG", "KKKKKGGGGGGGGGGGGGGGGGGGGS",
              "SSGGGGG", "GSSSGGGK", "TTTGGGGE", "KGGGSSS"]
+    # distributions over 7 .. 11 sites (128 .. 2048 phosphostates) on short chains
+    for k in ([7, 9, 10] if tier == "quick" else [7, 8, 9, 9, 10, 10, 11]):
+        n = k + rng.randint(3, 6)
+        letters = ["S", "T", "Y"] * 4
+        body = [rng.choice(letters) for _ in range(k)] + [rng.choice("KEGDR") for _ in range(n - k)]
+        rng.shuffle(body)
+        yield {"s": "".join(body), "o": rng.randrange(1 << 30), "bigdist": k}
     for i in range(NWORDS[tier]):
         if i < len(fixed):
             s = fixed[i]
@@ -88,6 +95,42 @@ def judge(case, rep, S):
     cleared_since_pseq = False
     pseq_called = False
     all_sty = [i + 1 for i, c in enumerate(seq) if c in "STY"]
+    if case.get("bigdist"):
+        k = case["bigdist"]
+        sites = all_sty[:k]
+        order = list(sites)
+        rng.shuffle(order)
+        obj.set_phosphosites(order)
+        model = list(obj.get_phosphosites())
+        if sorted(model) != sorted(sites):
+            rep.viol("site_list", "after set_phosphosites(%r) on %s get_phosphosites() = %r" % (order, seq, model))
+            return
+        dist = obj.get_full_phosphostatus_kappa_distribution()
+        rep.cnt("distributions_over_7_or_more_sites")
+        if k >= 9:
+            rep.cnt("distributions_over_9_or_more_sites")
+        ctx = "(%s, %d sites %r)" % (seq, k, model)
+        if len(dist) != 2 ** k:
+            rep.viol("distribution_size", "distribution has %d entries for %d sites %s" % (len(dist), k, ctx))
+            return
+        fresh = {}
+        for entry, status in zip(dist, itertools.product("01", repeat=k)):
+            if tuple(entry[-1]) != status:
+                rep.viol("distribution_order", "status tuple %r where binary counting gives %r %s" % (entry[-1], status, ctx))
+                return
+            sub = list(seq)
+            for bit, p_ in zip(status, model):
+                if bit == "1":
+                    sub[p_ - 1] = "E"
+            sub = "".join(sub)
+            if sub not in fresh:
+                f = SP(sub)
+                fresh[sub] = (f.get_kappa(), f.get_fraction_positive(), f.get_fraction_negative(), f.get_FCR(), f.get_NCPR(), f.get_mean_hydropathy())
+            want = fresh[sub]
+            if len(entry) != 7 or not all(M.close(a, b) for a, b in zip(entry[:6], want)):
+                rep.viol("distribution_values", "entry %r for status %r differs from the fresh object of %s: %r %s" % (entry, status, sub, want, ctx))
+                return
+        return
     if case["o"] % 10 == 0:
         # more than a hundred positions that must be ignored, on this one object, before the ordinary operations
         rep.cnt("long_ignored_position_histories")
